@@ -574,6 +574,15 @@ func emitLocks(ld *loaded, report *[]string) string {
 	}
 	sort.Strings(su)
 	fmt.Fprintf(&b, "\n/-- every field of the receiver that a method named static* mentions and whose own name does not start with \"static\", as method:field -/\ndef staticFieldUses : List String := %s\n", leanStrList(uniq(su)))
+	var lc, ls []string
+	for _, pkg := range []string{"glow", "server", "client"} {
+		lc = append(lc, lockCopyingReceivers(ld.pkgs[pkg], pkg)...)
+		ls = append(ls, loopSharedCaptures(ld.pkgs[pkg], pkg)...)
+	}
+	sort.Strings(lc)
+	sort.Strings(ls)
+	fmt.Fprintf(&b, "\n/-- methods with a value receiver whose type holds a mutex (the method would lock a copy) -/\ndef lockCopyingReceivers : List String := %s\n", leanStrList(uniq(lc)))
+	fmt.Fprintf(&b, "\n/-- what goroutines launched inside a loop share with the next iteration: a variable of reference kind declared outside the loop, or an alias of one, as function:name -/\ndef loopSharedCaptures : List String := %s\n", leanStrList(uniq(ls)))
 	b.WriteString("end Gen.Locks\n")
 	*report = append(*report, fmt.Sprintf("Locks: %d entry units, %d lock-assuming helpers, %d constructor loaders", len(entries), len(assuming), len(ctors)))
 	return b.String()
@@ -731,4 +740,210 @@ func staticMethodFieldUses(p *packages.Package, pkg string) []string {
 		}
 	}
 	return out
+}
+
+// containsLock: the type is, or (transitively, through struct fields and arrays) holds, a sync.Mutex or sync.RWMutex.
+func containsLock(t types.Type, depth int) bool {
+	if t == nil || depth > 6 {
+		return false
+	}
+	if s := t.String(); s == "sync.Mutex" || s == "sync.RWMutex" {
+		return true
+	}
+	switch u := t.Underlying().(type) {
+	case *types.Struct:
+		for i := 0; i < u.NumFields(); i++ {
+			if containsLock(u.Field(i).Type(), depth+1) {
+				return true
+			}
+		}
+	case *types.Array:
+		return containsLock(u.Elem(), depth+1)
+	}
+	return false
+}
+
+// lockCopyingReceivers lists the methods whose receiver is passed BY VALUE although its type holds a mutex:
+// such a method locks a private copy of the mutex (born locked if the original was held) and protects nothing.
+func lockCopyingReceivers(p *packages.Package, pkg string) []string {
+	var out []string
+	for _, f := range p.Syntax {
+		fn := filepath.Base(p.Fset.Position(f.Pos()).Filename)
+		if strings.HasSuffix(fn, "_test.go") || strings.HasPrefix(fn, "verif_") {
+			continue
+		}
+		for _, d := range f.Decls {
+			fd, ok := d.(*ast.FuncDecl)
+			if !ok || fd.Recv == nil || len(fd.Recv.List) != 1 {
+				continue
+			}
+			if _, ptr := fd.Recv.List[0].Type.(*ast.StarExpr); ptr {
+				continue
+			}
+			if t := p.TypesInfo.TypeOf(fd.Recv.List[0].Type); containsLock(t, 0) {
+				out = append(out, fmt.Sprintf("%s.%s.%s", pkg, types.ExprString(fd.Recv.List[0].Type), fd.Name.Name))
+			}
+		}
+	}
+	return out
+}
+
+func sharedKind(t types.Type) bool {
+	if t == nil {
+		return false
+	}
+	switch t.Underlying().(type) {
+	case *types.Slice, *types.Map, *types.Pointer, *types.Array, *types.Chan:
+		return true
+	}
+	return false
+}
+
+func rootIdent(e ast.Expr) *ast.Ident {
+	for {
+		switch x := e.(type) {
+		case *ast.Ident:
+			return x
+		case *ast.SliceExpr:
+			e = x.X
+		case *ast.IndexExpr:
+			e = x.X
+		case *ast.ParenExpr:
+			e = x.X
+		case *ast.StarExpr:
+			e = x.X
+		case *ast.UnaryExpr:
+			e = x.X
+		default:
+			return nil
+		}
+	}
+}
+
+// loopSharedCaptures: a goroutine is launched inside a loop (go statement, or tg.Launch with a function literal)
+// and what it is handed - a captured variable or an argument of slice, map, pointer, array or channel type - was
+// declared OUTSIDE that loop, or is a slice/alias of such a variable: every iteration's goroutine then shares it
+// with the next iteration. Entries are "pkg.Func:name" (or "pkg.Func:name<-root" for an alias).
+func loopSharedCaptures(p *packages.Package, pkg string) []string {
+	var out []string
+	for _, f := range p.Syntax {
+		fn := filepath.Base(p.Fset.Position(f.Pos()).Filename)
+		if strings.HasSuffix(fn, "_test.go") || strings.HasPrefix(fn, "verif_") {
+			continue
+		}
+		for _, d := range f.Decls {
+			fd, ok := d.(*ast.FuncDecl)
+			if !ok || fd.Body == nil {
+				continue
+			}
+			name := pkg + "."
+			if rt, _ := recvInfo(fd); rt != "" {
+				name += rt + "."
+			}
+			name += fd.Name.Name
+			// initialisers of := definitions
+			inits := map[types.Object]ast.Expr{}
+			ast.Inspect(fd.Body, func(n ast.Node) bool {
+				if as, ok := n.(*ast.AssignStmt); ok && as.Tok == token.DEFINE && len(as.Lhs) == len(as.Rhs) {
+					for i, l := range as.Lhs {
+						if id, ok := l.(*ast.Ident); ok {
+							if o := p.TypesInfo.Defs[id]; o != nil {
+								inits[o] = as.Rhs[i]
+							}
+						}
+					}
+				}
+				return true
+			})
+			params := map[types.Object]bool{}
+			if fd.Recv != nil {
+				for _, fl := range fd.Recv.List {
+					for _, id := range fl.Names {
+						params[p.TypesInfo.Defs[id]] = true
+					}
+				}
+			}
+			for _, fl := range fd.Type.Params.List {
+				for _, id := range fl.Names {
+					params[p.TypesInfo.Defs[id]] = true
+				}
+			}
+			inFunc := func(o types.Object) bool { return o != nil && o.Pos() >= fd.Pos() && o.Pos() < fd.End() }
+			judge := func(id *ast.Ident, loop ast.Node, lit ast.Node) {
+				o, _ := p.TypesInfo.Uses[id].(*types.Var)
+				if o == nil || o.IsField() || !inFunc(o) || params[o] || !sharedKind(o.Type()) {
+					return
+				}
+				if lit != nil && o.Pos() >= lit.Pos() && o.Pos() < lit.End() {
+					return // declared inside the literal itself
+				}
+				inLoop := o.Pos() >= loop.Pos() && o.Pos() < loop.End()
+				if !inLoop {
+					out = append(out, name+":"+o.Name())
+					return
+				}
+				if init, ok := inits[o]; ok {
+					if r := rootIdent(init); r != nil {
+						if ro, _ := p.TypesInfo.Uses[r].(*types.Var); ro != nil && !ro.IsField() && inFunc(ro) && !params[ro] && sharedKind(ro.Type()) &&
+							!(ro.Pos() >= loop.Pos() && ro.Pos() < loop.End()) {
+							if _, isCall := init.(*ast.CallExpr); !isCall {
+								out = append(out, name+":"+o.Name()+"<-"+ro.Name())
+							}
+						}
+					}
+				}
+			}
+			var walk func(n ast.Node, loop ast.Node)
+			walk = func(n ast.Node, loop ast.Node) {
+				ast.Inspect(n, func(m ast.Node) bool {
+					if m == nil || m == n {
+						return true
+					}
+					switch x := m.(type) {
+					case *ast.ForStmt:
+						walk(x.Body, x.Body)
+						return false
+					case *ast.RangeStmt:
+						walk(x.Body, x.Body)
+						return false
+					case *ast.FuncLit:
+						walk(x.Body, nil) // a literal that is not launched: its own loops count from scratch
+						return false
+					case *ast.GoStmt:
+						if loop != nil {
+							if lit, ok := x.Call.Fun.(*ast.FuncLit); ok {
+								ast.Inspect(lit.Body, func(k ast.Node) bool {
+									if id, ok := k.(*ast.Ident); ok {
+										judge(id, loop, lit)
+									}
+									return true
+								})
+							}
+							for _, a := range x.Call.Args {
+								if r := rootIdent(a); r != nil {
+									judge(r, loop, nil)
+								}
+							}
+						}
+						return true
+					case *ast.CallExpr:
+						if se, ok := x.Fun.(*ast.SelectorExpr); ok && se.Sel.Name == "Launch" && len(x.Args) == 1 && loop != nil {
+							if lit, ok := x.Args[0].(*ast.FuncLit); ok {
+								ast.Inspect(lit.Body, func(k ast.Node) bool {
+									if id, ok := k.(*ast.Ident); ok {
+										judge(id, loop, lit)
+									}
+									return true
+								})
+								return false
+							}
+						}
+					}
+					return true
+				})
+			}
+			walk(fd.Body, nil)
+		}
+	}
+	return uniq(out)
 }
